@@ -2,6 +2,7 @@ package main
 
 import (
 	"bytes"
+	"fmt"
 	"go/format"
 	"os"
 	"path/filepath"
@@ -56,6 +57,69 @@ func genNormalised(src string) (string, error) {
 		return "", err
 	}
 	return lineColRe.ReplaceAllString(string(out), "Line: 0, Col: 0"), nil
+}
+
+// templateBodies serialises the body of every HTML template of a file, in order.
+func templateBodies(src string) ([]string, bool) {
+	tf, err := parser.ParseString(src)
+	if err != nil {
+		return nil, false
+	}
+	var out []string
+	for _, n := range tf.Nodes {
+		if ht, ok := n.(parser.HTMLTemplate); ok {
+			a, err := astBody(ht.Children)
+			if err != nil {
+				return nil, false
+			}
+			out = append(out, a)
+		}
+	}
+	return out, true
+}
+
+var litIndexRe = regexp.MustCompile(`WriteString\(templ_7745c5c3_Buffer, \d+, "`)
+var varNumRe = regexp.MustCompile(`templ_7745c5c3_Var\d+`)
+
+// maskNumbering hides the file-wide running numbers (literal index, variable names) in one function's code: they
+// shift when an EARLIER template of the file changes.
+func maskNumbering(f string) string {
+	f = litIndexRe.ReplaceAllString(f, `WriteString(templ_7745c5c3_Buffer, #, "`)
+	seen := map[string]string{}
+	return varNumRe.ReplaceAllStringFunc(f, func(v string) string {
+		if _, ok := seen[v]; !ok {
+			seen[v] = fmt.Sprintf("templ_7745c5c3_Var#%d", len(seen)+1)
+		}
+		return seen[v]
+	})
+}
+
+// templateFuncs cuts gofmt-ed generated code into its top-level functions and keeps those of HTML templates.
+func templateFuncs(code string) []string {
+	var out []string
+	var cur []string
+	flush := func() {
+		if len(cur) > 0 {
+			f := strings.Join(cur, "\n")
+			if strings.Contains(f, "templruntime.GeneratedTemplate(func(templ_7745c5c3_Input") && strings.Contains(f, "templ.GetChildren(ctx)") {
+				out = append(out, f)
+			}
+		}
+		cur = nil
+	}
+	for _, l := range strings.Split(code, "\n") {
+		if strings.HasPrefix(l, "func ") {
+			flush()
+			cur = []string{l}
+		} else if cur != nil {
+			cur = append(cur, l)
+			if l == "}" {
+				flush()
+			}
+		}
+	}
+	flush()
+	return out
 }
 
 // repoTemplates returns the .templ sources in the repository (corpus that the suite's golden files come from).
@@ -144,6 +208,22 @@ func runFmt(e *emitter, tier string, seed uint64, prop string) {
 			}
 		}
 		e.emit(src, "gen", origin, hx(src), f1S, hx(g0), g1S)
+		// layout classes: the REAL parser's trees of the original and of the formatted file, template by template, and
+		// whether the real generated code of each template is the same program
+		if err1 == nil && !strings.HasPrefix(g1S, "ERR") {
+			a0, ok0 := templateBodies(src)
+			a1, ok1 := templateBodies(f1)
+			c0, c1 := templateFuncs(g0), templateFuncs(unhx(g1S))
+			if ok0 && ok1 && len(a0) == len(a1) && len(a0) > 0 && len(c0) == len(a0) && len(c1) == len(a0) {
+				bits := make([]string, len(a0))
+				for i := range a0 {
+					bits[i] = b01(maskNumbering(c0[i]) == maskNumbering(c1[i]))
+				}
+				e.emit(src+"#cls", "cls", origin, hx(src), strings.Join(a0, "|"), strings.Join(a1, "|"), strings.Join(bits, ""))
+			} else {
+				e.count("cls-not-comparable")
+			}
+		}
 	}
 	for _, f := range e.corpusLines() {
 		if len(f) >= 4 && (f[1] == "fmt" || f[1] == "gen") {
